@@ -19,6 +19,8 @@ type c01Case struct {
 	Sched []int       `json:"sched"` // picks among enabled actions (send next frame group of a stream / release a handler)
 	Burst bool        `json:"burst,omitempty"`
 	Win   uint32      `json:"win,omitempty"` // our SETTINGS_INITIAL_WINDOW_SIZE (0 = default)
+	// the final window grant updates the connection window before (true) or after the stream windows
+	ConnFirst bool `json:"conn_first,omitempty"`
 }
 
 // frame groups of one request, built lazily (header blocks are encoded when sent)
@@ -133,23 +135,39 @@ func c01Run(c c01Case) Outcome {
 			}
 		}
 	}
-	// final phase: grant window generously until everything owed has arrived
-	for round := 0; round < 8; round++ {
+	// final phase: one sufficient grant (every unfinished stream, and the
+	// connection, get far more window than any response needs), after which
+	// everything owed must arrive without further prompting. The connection
+	// grant goes last unless ConnFirst, so several streams can become
+	// sendable on the same WINDOW_UPDATE.
+	stalled := ""
+	for round := 0; round < 2; round++ {
 		if ok, d := h.Quiesce(); !ok {
 			return stuck("in the final phase", d)
 		}
 		got := peer.Assemble(h.EventsCopy())
-		need := false
+		var need []uint32
 		for _, s := range streams {
 			if g := got[s.id]; g == nil || g.EndStream == 0 && !g.Rst {
-				need = true
-				h.SendWindowUpdate(s.id, 1<<20)
+				need = append(need, s.id)
 			}
 		}
-		if !need {
+		if len(need) == 0 {
 			break
 		}
-		h.SendWindowUpdate(0, 1<<22)
+		if round == 1 {
+			stalled = fmt.Sprintf("streams %v still owe response frames although each was granted 2^24 octets of stream window and the connection 2^26", need)
+			break
+		}
+		if c.ConnFirst {
+			h.SendWindowUpdate(0, 1<<26)
+		}
+		for _, id := range need {
+			h.SendWindowUpdate(id, 1<<24)
+		}
+		if !c.ConnFirst {
+			h.SendWindowUpdate(0, 1<<26)
+		}
 	}
 	evs := h.EventsCopy()
 	seen := h.SeenCopy()
@@ -163,6 +181,9 @@ func c01Run(c c01Case) Outcome {
 	}
 	if v := h.FlowViolation(); v != "" {
 		return fail("flow-control", "%s", v)
+	}
+	if stalled != "" && !peer.HasEOF(evs) {
+		return fail("response-stalled-with-window", "%s", stalled)
 	}
 	for i, s := range streams {
 		if msg := checkSeen(s.req, seen); msg != "" {
@@ -228,6 +249,7 @@ func c01Gen(t *rapid.T) c01Case {
 	if rapid.IntRange(0, 4).Draw(t, "win") == 0 {
 		c.Win = rapid.SampledFrom([]uint32{1, 100, 16383, 1 << 20}).Draw(t, "winval")
 	}
+	c.ConnFirst = rapid.IntRange(0, 3).Draw(t, "connfirst") == 0
 	return c
 }
 
